@@ -44,6 +44,10 @@ type serverCase struct {
 	Cancelled bool   `json:"cancelled"`
 	Renderer  string `json:"renderer"` // default | nothing | teapot
 	OKErr     bool   `json:"ok_err,omitempty"`
+	// Timeout is a GRPC-Timeout header to send ("" = none). "1n" has expired by the time
+	// the handler returns: the handler's context is then done although the request (the
+	// client) is still there, which must NOT trigger the 499 rule.
+	Timeout string `json:"timeout,omitempty"`
 }
 
 type clientCase struct {
@@ -89,6 +93,9 @@ func runServer(c serverCase) (httpStatus int, hdr http.Header, body []byte) {
 		if c.OKErr {
 			return nil, okStatusErr{}
 		}
+		if c.Timeout == "1n" {
+			<-ctx.Done() // the server-side deadline derived from GRPC-Timeout
+		}
 		if err := status.Error(codes.Code(c.Code), "msg"); err != nil {
 			return nil, err
 		}
@@ -103,6 +110,9 @@ func runServer(c serverCase) (httpStatus int, hdr http.Header, body []byte) {
 	}
 	req := httptest.NewRequest("POST", "/t.S/M", strings.NewReader(string(reqBody))).WithContext(ctx)
 	req.Header.Set("Content-Type", httpgrpc.UnaryRpcContentType_V1)
+	if c.Timeout != "" {
+		req.Header.Set("GRPC-Timeout", c.Timeout)
+	}
 	rec := httptest.NewRecorder()
 	srv.ServeHTTP(rec, req)
 	return rec.Code, rec.Header(), rec.Body.Bytes()
@@ -229,7 +239,7 @@ func main() {
 	for c := uint32(0); c <= 17; c++ {
 		codeList = append(codeList, c)
 	}
-	codeList = append(codeList, 99, 1<<31-1)
+	codeList = append(codeList, 99, 1000, 1<<31-1, 1<<31, 3000000000, 1<<32-1)
 	for _, code := range codeList {
 		for _, cancelled := range []bool{false, true} {
 			for _, r := range []string{"default", "nothing", "teapot"} {
@@ -244,6 +254,19 @@ func main() {
 				}
 				if clause != "" {
 					rep.Violation(fmt.Sprintf("C14|server|code=%d|cancelled=%v|renderer=%s|%s", code, cancelled, r, clause), clause+": "+obs, c)
+				}
+			}
+		}
+	}
+	// server-side deadline (GRPC-Timeout) expired, or far away, while the request itself is alive or cancelled
+	for _, code := range []uint32{1, 4, 5} {
+		for _, cancelled := range []bool{false, true} {
+			for _, to := range []string{"1n", "1H"} {
+				c := serverCase{Kind: "server", Code: code, Cancelled: cancelled, Renderer: "default", Timeout: to}
+				evals++
+				distinct[fmt.Sprintf("srv|%d|%v|timeout=%s", code, cancelled, to)] = true
+				if clause, obs := checkServer(c); clause != "" {
+					rep.Violation(fmt.Sprintf("C14|server|code=%d|cancelled=%v|renderer=default|timeout=%s|%s", code, cancelled, to, clause), clause+": "+obs, c)
 				}
 			}
 		}
